@@ -156,3 +156,39 @@ def rule_B3(ck, rule="B3"):
                     rec.finding(rule, "%s:%s-beyond-block-of-%s-in-%s[%s]" % (fn.replace("w_", ""), e.kind, arg, tu.libfn(sm, e).split("@")[0], ck.catkey()),
                                 "%s: %s writes %s bytes at offset %s of the block of '%s' whose size is %s; not within the block under (%s) at %s" % (
                                     fn, e.kind, show(n2)[:120], show(o2)[:120], arg, show(simplify(mc, f))[:80], " && ".join(show_cond(c) for c in f.raw[-5:])[:260], tu.where(sm, e)), config=tu.cfg)
+
+
+def rule_B3u(ck, rule="B3u"):
+    """relocation / copy of a whole vector copies exactly the used range of the source block
+    (data_end() - data_begin() bytes), never more (the rest of the block need not fit the destination)"""
+    tu, rec = ck.tu, ck.rec
+    W = witness_objects(tu)
+    for fn in ("w_reserve", "w_copy_ctor", "w_copy_assign", "w_move_assign"):
+        if fn not in W:
+            continue
+        sm = tu.S(fn)
+        srcs = {}
+        for (arg, role, pre, post) in W[fn]:
+            if role in ("live", "dies") and pre is not None:
+                b = tu.obs(fn, pre, "begin")
+                srcs[b] = (arg, tu.obs(fn, pre, "end") - b)
+        for e in sm.events:
+            if e.kind not in ("MEMCPY", "MEMMOVE"):
+                continue
+            for b, (arg, used) in srcs.items():
+                if (e.args[1] - b).const() != 0:
+                    continue
+                good = True
+                bad = None
+                for f in case_split([e.guard, e.args[2], used], Facts([e.guard]), max_cases=16):
+                    d = simplify(e.args[2], f) - simplify(used, f)
+                    if not (d.is_const() and d.c == 0):
+                        good, bad = False, (simplify(e.args[2], f), simplify(used, f))
+                        break
+                if bad is not None and (has_unknown(bad[0]) or has_unknown(bad[1])):
+                    rec.broken("%s %s %s: copy length undecided %s" % (tu.cfg, rule, fn, show(bad[0])[:120]))
+                    continue
+                rec.ob(rule, good, {"config": tu.cfg, "witness": fn, "obligation": "bulk copy out of the block of %s has length data_end()-data_begin()" % arg, "n": show(e.args[2])[:120]})
+                if not good:
+                    rec.finding(rule, "%s:%s-length-from-%s-in-%s[%s]" % (fn.replace("w_", ""), e.kind, arg, tu.libfn(sm, e).split("@")[0], ck.catkey()),
+                                "%s copies %s bytes out of the block of '%s' whose used range is %s bytes (at %s)" % (fn, show(bad[0])[:160], arg, show(bad[1])[:160], tu.where(sm, e)), config=tu.cfg)
